@@ -59,6 +59,9 @@ var interpolateTypeCastMapping = map[tree.Path]interp.Cast{
 	servicePath("ulimits", tree.PathMatchAll):                      toInt,
 	servicePath("ulimits", tree.PathMatchAll, "hard"):              toInt,
 	servicePath("ulimits", tree.PathMatchAll, "soft"):              toInt,
+	servicePath("build", "ulimits", tree.PathMatchAll):             toInt,
+	servicePath("build", "ulimits", tree.PathMatchAll, "hard"):     toInt,
+	servicePath("build", "ulimits", tree.PathMatchAll, "soft"):     toInt,
 	servicePath("volumes", tree.PathMatchList, "read_only"):        toBoolean,
 	servicePath("volumes", tree.PathMatchList, "volume", "nocopy"): toBoolean,
 	iPath("networks", tree.PathMatchAll, "external"):               toBoolean,
